@@ -169,6 +169,23 @@ def structure(stmts, cont, k):
     raise Unstructurable('return inside %s' % type(s).__name__)
 
 
+def _loop_idioms(body):
+    """`for v in it: if c: return True` + `return False`  ->  `return any(c for v in it)` (and the all() dual)"""
+    if len(body) >= 2 and isinstance(body[-2], ast.For) and isinstance(body[-1], ast.Return) and not body[-2].orelse and \
+            isinstance(body[-1].value, ast.Constant) and isinstance(body[-1].value.value, bool) and len(body[-2].body) == 1:
+        loop, tail = body[-2], body[-1].value.value
+        s = loop.body[0]
+        if isinstance(s, ast.If) and not s.orelse and len(s.body) == 1 and isinstance(s.body[0], ast.Return) and \
+                isinstance(s.body[0].value, ast.Constant) and s.body[0].value.value is (not tail):
+            cond = s.test if not tail else _negate(s.test)
+            gen = ast.GeneratorExp(elt=cond, generators=[ast.comprehension(target=loop.target, iter=loop.iter, ifs=[], is_async=0)])
+            call = ast.Call(func=ast.Name(id='any' if not tail else 'all', ctx=ast.Load()), args=[gen], keywords=[])
+            ret = ast.copy_location(ast.Return(value=call), loop)
+            ast.fix_missing_locations(ret)
+            return body[:-2] + [ret]
+    return body
+
+
 class Helper(object):
     def __init__(self, module, cls, fn):
         self.module = module
@@ -179,7 +196,7 @@ class Helper(object):
         self.ok = not (a.vararg or a.kwarg or a.kwonlyargs or getattr(a, 'posonlyargs', None))
         if any(not (isinstance(d, ast.Name) and d.id == 'staticmethod') for d in fn.decorator_list):
             self.ok = False
-        body = _docless(fn.body)
+        body = _loop_idioms(_docless(fn.body))
         self.body = body
         if any(isinstance(n, _FORBIDDEN) for s in body for n in ast.walk(s)):
             self.ok = False
@@ -268,7 +285,7 @@ def _first_evaluated(expr, target):
             return
         if isinstance(n, ast.Attribute):
             ev(n.value)
-            if not (isinstance(n.value, ast.Name)):
+            if not (isinstance(n.value, (ast.Name, ast.Constant))):
                 order.append('x')
             return
         if isinstance(n, ast.Call):
@@ -331,6 +348,7 @@ class Normaliser(object):
         self.inlined = []      # (helper name, caller, form)
         self.skipped = []      # (helper name, caller, reason)
         self.helpers = {}
+        self._fstrings_to_format()
         self._collect()
 
     def _collect(self):
@@ -687,6 +705,43 @@ class Normaliser(object):
                             if not b:
                                 b.append(ast.copy_location(ast.Pass(), d))
                             self.inlined.append((d.name, fn.name, 'def-to-lambda'))
+
+    def _fstrings_to_format(self):
+        """f'{a}/{b:.2f}' -> '{}/{:.2f}'.format(a, b): one template idiom for the rules (the code base itself uses .format)"""
+        norm_ = self
+
+        class T(ast.NodeTransformer):
+            def visit_JoinedStr(self_, n):
+                self_.generic_visit(n)
+                tmpl = []
+                args = []
+                for v in n.values:
+                    if isinstance(v, ast.Constant) and isinstance(v.value, str):
+                        tmpl.append(v.value.replace('{', '{{').replace('}', '}}'))
+                    elif isinstance(v, ast.FormattedValue):
+                        spec = ''
+                        if v.format_spec is not None:
+                            if not (isinstance(v.format_spec, ast.JoinedStr) and all(isinstance(x, ast.Constant) for x in v.format_spec.values)):
+                                return n
+                            spec = ':' + ''.join(x.value for x in v.format_spec.values)
+                        conv = {-1: '', 115: '!s', 114: '!r', 97: '!a'}.get(v.conversion, None)
+                        if conv is None:
+                            return n
+                        tmpl.append('{' + conv + spec + '}')
+                        args.append(v.value)
+                    else:
+                        return n
+                norm_.fstrings += 1
+                if not args:
+                    return ast.copy_location(ast.Constant(value=''.join(tmpl).replace('{{', '{').replace('}}', '}')), n)
+                return ast.copy_location(ast.Call(func=ast.Attribute(value=ast.Constant(value=''.join(tmpl)), attr='format', ctx=ast.Load()),
+                                                  args=args, keywords=[]), n)
+        self.fstrings = 0
+        for mn, t in list(self.trees.items()):
+            T().visit(t)
+            ast.fix_missing_locations(t)
+        if self.fstrings:
+            self.inlined.append(('f-strings', '%d' % self.fstrings, 'to-format'))
 
     def run(self):
         self._defs_to_lambdas()
